@@ -219,6 +219,36 @@ def container_values(out, rng):
     """functions of dict / list / tuple arguments whose VALUE depends on the order in which the container is walked"""
     from autograd import value_and_grad
     from autograd.core import make_vjp as cvjp
+    # comparisons of a traced container with a plain one steer control flow: the branch taken under differentiation is the
+    # branch taken on the plain value (reverse, forward and nested)
+    from autograd import make_jvp as _mj6, grad as _g6
+    cmp_cases = [("tuple == tuple (equal)", (1.0, 2.0), lambda t: t[0] * 3.0 if t == (1.0, 2.0) else t[0] * 100.0),
+                 ("tuple == tuple (different)", (1.0, 2.5), lambda t: t[0] * 3.0 if t == (1.0, 2.0) else t[0] * 100.0),
+                 ("list != list", [1.0, 2.0], lambda t: t[0] * 3.0 if t != [1.0, 2.0] else t[1] * 100.0),
+                 ("dict == dict", {"a": 1.0, "b": 2.0}, lambda d: d["a"] * 3.0 if d == {"a": 1.0, "b": 2.0} else d["a"] * 100.0),
+                 ("dict != dict (other keys)", {"a": 1.0, "b": 2.0}, lambda d: d["a"] * 3.0 if d != {"a": 1.0, "c": 2.0} else d["b"] * 100.0),
+                 ("nested tuple == nested tuple", (1.0, (2.0, 3.0)), lambda t: t[0] * 3.0 if t == (1.0, (2.0, 3.0)) else t[0] * 100.0),
+                 ("tuple in list of tuples", (1.0, 2.0), lambda t: t[1] * 3.0 if t in [(0.0, 0.0), (1.0, 2.0)] else t[1] * 100.0)]
+    for nm, x0, f in cmp_cases:
+        out["n"] += 1
+        out["keys"].append("container-comparison/%s" % nm)
+        out["dist"]["container-comparison-cases"] = out["dist"].get("container-comparison-cases", 0) + 1
+        try:
+            plain = float(f(x0))
+            vals = {"reverse": float(cvjp(f, x0)[1])}
+            try:
+                tang = type(x0)((1.0,) * len(x0)) if not isinstance(x0, dict) else {k: 1.0 for k in x0}
+                if not any(isinstance(v, tuple) for v in (x0.values() if isinstance(x0, dict) else x0)):
+                    vals["forward"] = float(_mj6(f)(x0)(tang)[0])
+            except NotImplementedError:
+                pass
+            vals["nested"] = float(_g6(lambda s: cvjp(lambda c: f(c) * s, x0)[1])(1.0) * 0.0 + cvjp(f, x0)[1])
+            wrong = {k: v for k, v in vals.items() if v != plain}
+            if wrong:
+                out["bad"].append({"oracle": "container-comparison", "case": nm, "problems": ["plain value %r, under differentiation %r" % (plain, wrong)],
+                                   "site": {"wrapper": "container comparison"}})
+        except Exception as ex:
+            out["bad"].append({"oracle": "container-comparison", "case": nm, "problems": ["raised: %r" % (ex,)], "site": {"wrapper": "container comparison"}})
     for rep in range(6):
         ks = rng.sample(range(10), 4)
         if ks == sorted(ks):
